@@ -52,6 +52,9 @@ pub struct PCase {
     pub crash_rip_in_principal: bool,
     pub sanitize: bool,
     pub skip: bool,
+    /// size limit small enough to trigger stack shortening for threads at position >= 20
+    #[serde(default)]
+    pub limit: bool,
 }
 
 pub struct PObs {
@@ -157,7 +160,7 @@ pub fn run_case(c: &PCase) -> Result<PObs, Verdict> {
         return Err(Verdict::Inconclusive("target did not settle".into()));
     }
     let tids: Vec<i32> = ids.iter().map(|id| t.tid(*id)).collect();
-    let mut opts = DumpOpts { blamed: t.pid, sanitize: c.sanitize, skip_unreferenced: c.skip, principal: principal_addr, ..Default::default() };
+    let mut opts = DumpOpts { blamed: t.pid, sanitize: c.sanitize, skip_unreferenced: c.skip, principal: principal_addr, size_limit: if c.limit { Some(1) } else { None }, ..Default::default() };
     let mut crash = None;
     if let Some(k) = c.crash_on.filter(|_| !tids.is_empty()) {
         let i = pick(k, tids.len());
@@ -210,17 +213,19 @@ pub fn thread_strategy() -> impl Strategy<Value = PThread> {
         .prop_map(|(stack_pages, sp_page, sp_inpage, plants, spin_in_map)| PThread { stack_pages, sp_page, sp_inpage, plants, spin_in_map })
 }
 
-pub fn case_strategy(force_sanitize: Option<bool>, force_skip: Option<bool>) -> impl Strategy<Value = PCase> {
+pub fn case_strategy(force_sanitize: Option<bool>, force_skip: Option<bool>, force_limit: Option<bool>) -> impl Strategy<Value = PCase> {
     (
-        proptest::collection::vec(thread_strategy(), 1..25),
+        prop_oneof![3 => proptest::collection::vec(thread_strategy(), 1..25), 1 => proptest::collection::vec(thread_strategy(), 21..44)],
         proptest::collection::vec((any::<u8>(), any::<bool>()), 1..5),
         proptest::option::weighted(0.85, prop_oneof![7 => any::<u16>(), 1 => Just(0xffffu16)]),
         proptest::option::weighted(0.5, any::<u16>()),
         any::<bool>(),
         any::<bool>(),
         any::<bool>(),
+        proptest::bool::weighted(0.4),
     )
-        .prop_map(move |(threads, maps, principal, crash_on, crash_rip_in_principal, sanitize, skip)| PCase {
+        .prop_map(move |(threads, maps, principal, crash_on, crash_rip_in_principal, sanitize, skip, limit)| PCase {
+            limit: force_limit.unwrap_or(limit),
             threads,
             maps,
             principal,
